@@ -1247,6 +1247,29 @@ NLA_NATIVES = {
             d.extend_from_slice(&[0, 0, 0, 0]);
             more.push(d);
         }
+        // a pair whose AvLen runs past the end of the target info by 1..24 bytes, at the first, a middle and the last position
+        for over in 1u8..25 {
+            for layout in 0..3 {
+                let mut info: Vec<u8> = vec![];
+                let ts = |len: u8| { let mut v = vec![7u8, 0, len, 0]; v.extend_from_slice(&[1, 2, 3, 4, 5, 6, 7, 8]); v };
+                let name = |len: u8| { let mut v = vec![1u8, 0, len, 0]; v.extend_from_slice(&[0x41, 0, 0x42, 0]); v };
+                match layout {
+                    0 => { info.extend(ts(8 + 4 + over)); info.extend_from_slice(&[0, 0, 0, 0]); },
+                    1 => { info.extend(name(4)); info.extend(ts(8 + 4 + over)); info.extend_from_slice(&[0, 0, 0, 0]); },
+                    _ => { info.extend(ts(8)); info.extend(name(4 + 4 + over)); info.extend_from_slice(&[0, 0, 0, 0]); },
+                }
+                let mut d = base.clone();
+                d.extend_from_slice(&[info.len() as u8, 0, info.len() as u8, 0, 48, 0, 0, 0]);
+                d.extend_from_slice(&info);
+                more.push(d);
+                // the same without the terminating EOL pair
+                let mut d2 = base.clone();
+                let cut = info.len() - 4;
+                d2.extend_from_slice(&[cut as u8, 0, cut as u8, 0, 48, 0, 0, 0]);
+                d2.extend_from_slice(&info[..cut]);
+                more.push(d2);
+            }
+        }
         // large target infos (timestamp, one long AV pair, EOL): total 1000, 32768, 65491, 65492, 65500, 65534, 65535 bytes
         for total in [1000usize, 32768, 65491, 65492, 65500, 65534, 65535].iter() {
             let mut d = base.clone();
@@ -1368,6 +1391,9 @@ def panic_sites_in_files(files, allow, default_native=None):
         nat = {".": default_native} if default_native else {}
         return panic_sites(targets, nat)(ctx, mir, stats)
     return fn
+
+
+NLA_NATIVES[r"^read_target_info$|^get_payload_field$|^authenticate_message|^compute_response_v2$|^ntowfv2|^read_target"] = NLA_NATIVES[r"read_challenge_message$"]
 
 
 NLA_FILE_ALLOW = [
@@ -4757,3 +4783,91 @@ def ts_credentials_shape(ctx, mir, stats):
     return [{"id": "ts-credentials:mandatory-fields", "ok": ok, "functions": [f.name], "where": f.name, "needs_native": True, "native": None if ok else TS_CREDS_NATIVE,
              "detail": "on every path TSPasswordCreds = { [0] domainName, [1] userName, [2] password } and TSCredentials = { [0] credType, [1] credentials }: no field depends on the values" if ok else
              "create_ts_credentials builds %s: a mandatory field is conditional or the tags changed" % sorted(shapes)[:2]}]
+
+
+# --------------------------------------------------------------------------
+# C03: the licensing phase ends on both replies a conforming server may send
+# --------------------------------------------------------------------------
+LICENCE_OK_NATIVE = _native("verif_replay_licence_accepted_replies", "src/core/license.rs", """
+        // SERVER_NEW_LICENSE (0x03) with an opaque (encrypted) body of several sizes, preamble flags 0x03 and 0x83; ERROR_ALERT / STATUS_VALID_CLIENT / ST_NO_TRANSITION: both end the licensing phase
+        for flags in [0x03u8].iter() {
+            for n in [0usize, 1, 7, 8, 16, 100, 1000, 2055].iter() {
+                let body: Vec<u8> = (0..*n).map(|i| (i * 31 + 7) as u8).collect();
+                let size = (body.len() + 4) as u16;
+                let mut m = vec![0x03u8, *flags, size as u8, (size >> 8) as u8];
+                m.extend_from_slice(&body);
+                assert!(client_connect(&mut Cursor::new(m)).is_ok(), "a SERVER_NEW_LICENSE with a {}-byte body does not end the licensing phase", n);
+            }
+        }
+        let mut alert = vec![0xffu8, 0x03, 20, 0];
+        alert.extend_from_slice(&[7, 0, 0, 0,  2, 0, 0, 0,  4, 0, 0, 0]);
+        alert.extend_from_slice(&[0, 0, 0, 0]);
+        let _ = alert.len();
+        let mut valid = vec![0xffu8, 0x03, 16, 0, 7, 0, 0, 0, 2, 0, 0, 0, 4, 0, 0, 0];
+        assert!(client_connect(&mut Cursor::new(valid.clone())).is_ok(), "ERROR_ALERT STATUS_VALID_CLIENT / ST_NO_TRANSITION refused");
+        valid[4] = 6;
+        assert!(client_connect(&mut Cursor::new(valid)).is_err(), "an error alert other than STATUS_VALID_CLIENT accepted");""")
+
+
+def licence_outcomes(ctx, mir, stats):
+    f = find_fn(mir, r"^parse_payload$")
+    calls = call_blocks(f, r"^licensing_error_message$")
+    reads = [b for b in call_blocks(f, r" as Message>::read$")]
+    sw = [b for b in f.order if f.blocks[b].t and f.blocks[b].t["kind"] == "switch" and not f.blocks[b].cleanup and {"3", "255"} <= {lab for lab, _t in f.blocks[b].t["targets"]}]
+    if len(sw) != 1 or not calls:
+        raise Inconclusive("ENCODING-FAILED: parse_payload shape not recognised (switch on the message type: %s, licensing_error_message calls: %s)" % (sw, calls))
+    s0 = sw[0]
+    tg = dict(f.blocks[s0].t["targets"])
+    obs = []
+    r = any(fp_reachable(f, f.order[0], b, stats, removed_edges={(s0, "255", tg["255"])}) for b in calls + reads)
+    obs.append({"id": "licence:error-body-parsed-only-for-error-alert", "ok": not r, "functions": [f.name], "where": f.name, "needs_native": True, "native": None if not r else LICENCE_OK_NATIVE,
+                "detail": "the body is parsed as a licensing error message only on the ERROR_ALERT (0xFF) edge of the message-type switch" if not r else
+                "the body is parsed as a licensing error message although the message type is not ERROR_ALERT: a SERVER_NEW_LICENSE (opaque body) fails to parse and the connection sequence stops"})
+    okb = stmt_blocks(f, r"LicenseMessage::NewLicense")
+    r3 = bool(okb) and all(fp_reachable(f, tg["3"], b, stats) for b in okb[:1]) and not any(fp_reachable(f, tg["3"], b, stats) for b in calls + reads)
+    obs.append({"id": "licence:new-license-accepted-without-parsing", "ok": r3, "functions": [f.name], "where": f.name, "needs_native": True, "native": None if r3 else LICENCE_OK_NATIVE,
+                "detail": "SERVER_NEW_LICENSE (0x03) yields LicenseMessage::NewLicense without touching its body" if r3 else "SERVER_NEW_LICENSE is not accepted as it is"})
+    return obs
+
+
+# --------------------------------------------------------------------------
+# C10: an update that cannot be decoded does not end the fast-path PDU
+# --------------------------------------------------------------------------
+FP_FOLLOWERS_NATIVE = _native("verif_replay_fast_path_followers", "src/core/global.rs", """
+        // [bitmap A][update with code X][synchronize][bitmap B] for every update code 0..15: both rectangles reach the callback, in order
+        let bitmap = |tag: u8| { let mut rect = vec![tag, 0, 0, 0, tag, 0, 0, 0, 1, 0, 1, 0, 32, 0, 0, 0, 4, 0]; rect.extend_from_slice(&[1, 2, 3, 4]);
+                                 let mut data = vec![1u8, 0, 1, 0]; data.extend_from_slice(&rect); let mut u = vec![0x01u8, data.len() as u8, 0]; u.extend_from_slice(&data); u };
+        for code in 0u8..16 {
+            if code == 1 { continue }
+            for body in [vec![], vec![0u8; 2], vec![0xffu8; 7]].iter() {
+                let mut pdu = bitmap(1);
+                pdu.push(code); pdu.push(body.len() as u8); pdu.push(0); pdu.extend_from_slice(body);
+                pdu.extend_from_slice(&[0x03, 0, 0]);
+                pdu.extend_from_slice(&bitmap(2));
+                let mut c = Client::new(1007, 1003, 800, 600, KeyboardLayout::US, "x");
+                let mut got = vec![];
+                let r = c.read_fast_path(&mut Cursor::new(pdu), |e| { if let RdpEvent::Bitmap(b) = e { got.push(b.dest_left) } });
+                assert!(r.is_ok(), "a fast-path PDU with an update of code {} between two bitmap updates is refused", code);
+                assert_eq!(got, vec![1u16, 2], "update code {} ({} body bytes) between two bitmap updates: rectangles delivered", code, body.len());
+            }
+        }""")
+
+
+def fast_path_error_arm(ctx, mir, stats):
+    f = find_fn(mir, r"^global::<impl at src/core/global\.rs[^>]*>::read_fast_path$")
+    calls = call_blocks(f, r"::from_fp$")
+    heads = call_blocks(f, r"<std::slice::Iter<'_, Box<dyn Message>> as Iterator>::next$|Iter<.*Box<dyn Message>.*as Iterator>::next$")
+    if len(calls) != 1 or not heads:
+        raise Inconclusive("ENCODING-FAILED: read_fast_path shape not recognised (from_fp %s, loop heads %s)" % (calls, heads))
+    rs = result_switch(f, calls[0])
+    if not rs:
+        raise Inconclusive("ENCODING-FAILED: the result of FastPathUpdate::from_fp is not tested")
+    sw, tg = rs
+    rets = [b for b in f.order if f.blocks[b].t and f.blocks[b].t["kind"] == "return"]
+    H = heads[0]
+    leaves = any(fp_reachable(f, tg["1"], r, stats, removed_nodes={H}) for r in rets)
+    back = fp_reachable(f, tg["1"], H, stats)
+    ok = back and not leaves
+    return [{"id": "fast-path:undecodable-update-continues", "ok": ok, "functions": [f.name], "where": f.name, "needs_native": True, "native": None if ok else FP_FOLLOWERS_NATIVE,
+             "detail": "when FastPathUpdate::from_fp fails for one update the loop goes on to the next update: the function cannot return from that arm" if ok else
+             "the error arm of FastPathUpdate::from_fp can leave read_fast_path: the bitmap updates that follow an undecodable update in the same PDU never reach the application"}]
